@@ -28,8 +28,9 @@ FLAVOURS = {
     # library (inlined ones included) becomes a schedule point, so windows that contain no explicit hook
     # (e.g. code added by a change) are interleaved too
     "fn":   ("gcc", ["-O1", "-g"], []),
+    "mem":  ("gcc", ["-O1", "-g"], []),
 }
-LIB_EXTRA = {"fn": ["-finstrument-functions"]}
+LIB_EXTRA = {"fn": ["-finstrument-functions"], "mem": ["-fsanitize=thread"]}
 
 def _files(dirpath, exts):
     out = []
@@ -87,7 +88,7 @@ def build(flavour="O2", quiet=True):
         jobs = []
         objs = []
         cpp = lib_cppflags()
-        simflags = oflags + ["-fno-omit-frame-pointer", "-D_GNU_SOURCE", "-Wall", "-Wno-unused-function",
+        simflags = oflags + (["-DMVSIM_MEM_FLAVOUR"] if flavour == "mem" else []) + ["-fno-omit-frame-pointer", "-D_GNU_SOURCE", "-Wall", "-Wno-unused-function",
                              "-I" + os.path.join(VERIF, "sim"), "-I" + os.path.join(REPO, "src"),
                              "-I" + os.path.join(REPO, "include")]
         for s in COMMON_SRCS:
@@ -95,7 +96,7 @@ def build(flavour="O2", quiet=True):
             objs.append(o)
             jobs.append([cc] + oflags + LIB_EXTRA.get(flavour, []) + cpp + ["-c", os.path.join(REPO, "src", s), "-o", o])
         # runtime
-        for s, extra in (("mvsim.c", []), ("mvsim_switch.S", [])):
+        for s, extra in (("mvsim.c", []), ("mvsim_switch.S", []), ("mvsim_tsan.c", [])):
             o = os.path.join(bdir, "sim_" + s.rsplit(".", 1)[0] + ".o")
             objs.append(o)
             jobs.append([cc] + simflags + extra + ["-c", os.path.join(VERIF, "sim", s), "-o", o])
@@ -172,7 +173,7 @@ def build(flavour="O2", quiet=True):
                 oks = list(ex.map(lambda c: _run(c, log), ljobs))
             if not all(oks):
                 raise RuntimeError("ptprog compile failed:\n" + "\n".join(log)[:20000])
-            simobjs = [os.path.join(bdir, "sim_mvsim.o"), os.path.join(bdir, "sim_mvsim_switch.o")]
+            simobjs = [os.path.join(bdir, "sim_mvsim.o"), os.path.join(bdir, "sim_mvsim_switch.o"), os.path.join(bdir, "sim_mvsim_tsan.o")]
             link4 = [cxx] + oflags + ["-no-pie", "-o", os.path.join(bdir, "ptprog"), main_o] + lobjs + simobjs + \
                     ["@" + os.path.join(REPO, "src", "myth-ld.opts")] + ldflags + ["-lrt", "-lpthread", "-ldl", "-lm"]
             if not _run(link4, log):
